@@ -45,7 +45,12 @@ class RabbitMessageBroker(MessageBrokerT):
         self.idd = is_durable_decider
         self.__connection: aiormq.abc.AbstractConnection | None = None
         self.__channel: aiormq.abc.AbstractChannel | None = None
-        self._id_to_delivery_tag: dict[str, int] = {}
+        self._id_to_delivery_tag: dict[tuple[str, int, str, str], int] = {}
+
+    @staticmethod
+    def _delivery_tag_key(key: RoutingKeyT) -> tuple[str, int, str, str]:
+        # an id alone doesn't identify a message: it may be reused in another queue, topic or priority
+        return (key.queue, key.priority, key.topic, key.id_)
 
     @property
     def _channel(self) -> aiormq.abc.AbstractChannel:
@@ -107,7 +112,7 @@ class RabbitMessageBroker(MessageBrokerT):
         logger_extra = {"routing_key": key}
         logger.debug("Acking message ({routing_key}).", extra=logger_extra)
         if (
-            delivery_tag := self._id_to_delivery_tag.pop(key.id_, None)
+            delivery_tag := self._id_to_delivery_tag.pop(self._delivery_tag_key(key), None)
         ) is None:  # pragma: no cover
             logger.error(
                 "Can't ack unknown delivery tag for message ({routing_key}).",
@@ -120,7 +125,7 @@ class RabbitMessageBroker(MessageBrokerT):
         logger_extra = {"routing_key": key}
         logger.debug("Nacking message ({routing_key}).", extra=logger_extra)
         if (
-            delivery_tag := self._id_to_delivery_tag.pop(key.id_, None)
+            delivery_tag := self._id_to_delivery_tag.pop(self._delivery_tag_key(key), None)
         ) is None:  # pragma: no cover
             logger.error(
                 "Can't nack unknown delivery tag for message ({routing_key}).",
@@ -133,7 +138,7 @@ class RabbitMessageBroker(MessageBrokerT):
         logger_extra = {"routing_key": key}
         logger.debug("Rejecting message ({routing_key}).", extra=logger_extra)
         if (
-            delivery_tag := self._id_to_delivery_tag.pop(key.id_, None)
+            delivery_tag := self._id_to_delivery_tag.pop(self._delivery_tag_key(key), None)
         ) is None:  # pragma: no cover
             logger.error(
                 "Can't reject unknown delivery tag for message ({routing_key}).",
